@@ -28,6 +28,9 @@ def declare(reg, eng):
                  ensures=["result == self.acquired"], effect="iplock.acquire")
     reg.contract("IPLock.release", params=["self"], types={"self": "IPLock"}, modifies=["self.acquired"], effect="iplock.release",
                  ensures=["self.acquired == False"], raises={"Exception": {"when": [], "modifies": []}})
+    reg.contract("IPLock.__enter__", params=["self"], types={"self": "IPLock"}, returns="IPLock", modifies=["self.acquired"], awaits=True,
+                 ensures=["result is self"], effect="iplock.acquire")
+    reg.contract("IPLock.__exit__", params=["self"], types={"self": "IPLock"}, modifies=["self.acquired"], effect="iplock.release")
     reg.contract("report_eoj", params=[], modifies=[], effect="report_eoj")
     # the task body: opaque; assumed not to create or delete the runner's marker files (.done / .failed / .pid)
     reg.contract("run", params=["parameters"], modifies=[], effect="body",
